@@ -517,7 +517,35 @@ def unit_bounded_odd_featuretypes(U):
         fails.append({"case": {"call": "featuretypes()"}, "expected": sorted(set(types)), "observed": sorted(db.featuretypes())})
     U.bounded_result("C11.bounded.odd_featuretypes", "featuretype filters and counts on types containing separators, quotes, digits == full scan", "9 odd featuretypes x 4 entry points", cases, fails)
 
-UNITS = [("bounded.odd_featuretypes", unit_bounded_odd_featuretypes), ("bounded.after_imports", unit_bounded_after_imports), ("schema", unit_schema), ("order", unit_order), ("where", unit_where), ("counts", unit_counts), ("bounded", unit_bounded)]
+def unit_bounded_lengths(U):
+    """Bounded: order_by 'length' is the order of the stored end - start, negative differences included (a line whose start
+    exceeds its end is imported as written) - as a string, in a tuple, alone and with further columns, both directions"""
+    import gffutils.feature as F_
+    fails, cases = [], 0
+    coords = [(10, 20), (50, 40), (7, 7), (100, 30), (5, 80), (90, 91), (300, 100), (60, 65)]
+    feats = []
+    for i, (a, b) in enumerate(coords):
+        f = F_.Feature(seqid="c", source="s", featuretype=("exon", "gene")[i % 2], start=a, end=b, strand="+", attributes={"ID": ["f%d" % i]})
+        f.id = "f%d" % i
+        feats.append(f)
+    db = native_db(feats)
+    ln = {f.id: f.end - f.start for f in feats}
+    for ob in ("length", ("length",), ["length"], ("length", "start"), ("featuretype", "length")):
+        for rev in (False, True):
+            if rev and ob not in ("length", ("length",), ["length"]):
+                continue                     # the statement promises 'descending with reverse' for a single column
+            for name, fn in (("all_features", lambda: db.all_features(order_by=ob, reverse=rev)), ("features_of_type", lambda: db.features_of_type("exon", order_by=ob, reverse=rev))):
+                cases += 1
+                got = [f.id for f in fn()]
+                key = (lambda i: (ln[i],)) if ob in ("length", ("length",), ["length"]) else ((lambda i: (ln[i], db[i].start)) if ob == ("length", "start") else (lambda i: (db[i].featuretype, ln[i])))
+                keys = [key(i) for i in got]
+                want_ids = sorted(f.id for f in feats if name == "all_features" or f.featuretype == "exon")
+                ok = sorted(got) == want_ids and all((keys[k] >= keys[k + 1]) if rev else (keys[k] <= keys[k + 1]) for k in range(len(keys) - 1))
+                if not ok:
+                    fails.append({"case": {"call": name, "order_by": repr(ob), "reverse": rev}, "expected": "ids %r sorted by end - start (%s)" % (want_ids, "descending" if rev else "ascending"), "observed": [(i, ln[i]) for i in got]})
+    U.bounded_result("C11.bounded.lengths", "order_by 'length' sorts by the stored end - start, reversed coordinates included", "8 features (3 with start > end) x 5 order_by forms x reverse x 2 entry points", cases, fails)
+
+UNITS = [("bounded.lengths", unit_bounded_lengths), ("bounded.odd_featuretypes", unit_bounded_odd_featuretypes), ("bounded.after_imports", unit_bounded_after_imports), ("schema", unit_schema), ("order", unit_order), ("where", unit_where), ("counts", unit_counts), ("bounded", unit_bounded)]
 
 
 def replay_file(doc):
